@@ -39,6 +39,91 @@ struct GCase {
     label: String,
 }
 
+// ------------------------------------------------------------------ interned Coq terms
+//
+// coqc spends its time elaborating the case terms, not evaluating the model, and the same strings,
+// positions, definitions and whole files recur in thousands of cases; every such sub-term is therefore
+// given a name (`t<N>`) once and each shard file defines the names its cases use.
+thread_local! { static INTERN: std::cell::RefCell<Interner> = std::cell::RefCell::new(Interner::default()); }
+#[derive(Default)]
+struct Interner {
+    map: HashMap<(&'static str, String), usize>,
+    defs: Vec<(&'static str, String)>,
+}
+fn intern(ty: &'static str, text: String) -> String {
+    INTERN.with(|i| {
+        let mut i = i.borrow_mut();
+        let key = (ty, text);
+        if let Some(k) = i.map.get(&key) { return format!("t{}", k); }
+        let k = i.defs.len();
+        i.defs.push((key.0, key.1.clone()));
+        i.map.insert(key, k);
+        format!("t{}", k)
+    })
+}
+/// indices of the interned names a term mentions
+fn mentioned(text: &str, out: &mut BTreeSet<usize>) {
+    let b = text.as_bytes();
+    let mut i = 0;
+    while i < b.len() {
+        if b[i] == b'"' {
+            // skip string literals ("" is an escaped quote and simply re-enters)
+            i += 1;
+            while i < b.len() && b[i] != b'"' { i += 1; }
+            i += 1;
+            continue;
+        }
+        if b[i] == b't' && (i == 0 || !(b[i - 1].is_ascii_alphanumeric() || b[i - 1] == b'_')) {
+            let mut j = i + 1;
+            while j < b.len() && b[j].is_ascii_digit() { j += 1; }
+            if j > i + 1 && (j == b.len() || !(b[j].is_ascii_alphanumeric() || b[j] == b'_')) {
+                out.insert(text[i + 1..j].parse().unwrap());
+            }
+            i = j;
+            continue;
+        }
+        i += 1;
+    }
+}
+fn write_interned(cases: &Cases, out: &Path) {
+    std::fs::create_dir_all(out).unwrap();
+    let mut k = 0;
+    INTERN.with(|it| {
+        let it = it.borrow();
+        for chunk in cases.terms.chunks(cases.shard_size.max(1)) {
+            let mut need: BTreeSet<usize> = BTreeSet::new();
+            for t in chunk { mentioned(t, &mut need); }
+            // transitive closure (a name only mentions smaller names)
+            let mut todo: Vec<usize> = need.iter().copied().collect();
+            while let Some(x) = todo.pop() {
+                let mut m = BTreeSet::new();
+                mentioned(&it.defs[x].1, &mut m);
+                for y in m { if need.insert(y) { todo.push(y); } }
+            }
+            let mut v = String::new();
+            v.push_str(&cases.imports); v.push('\n');
+            for x in &need {
+                let (ty, text) = &it.defs[*x];
+                if *ty == "str" { v.push_str(&format!("Definition t{} : str := Eval vm_compute in {}.\n", x, text)); }
+                else { v.push_str(&format!("Definition t{} : {} := {}.\n", x, ty, text)); }
+            }
+            for (i, t) in chunk.iter().enumerate() { v.push_str(&format!("Definition c{} : {} := {}.\n", i, cases.case_type, t)); }
+            v.push_str(&format!("Definition cases : list ({}) := [", cases.case_type));
+            for i in 0..chunk.len() { if i > 0 { v.push_str("; "); } v.push_str(&format!("c{}", i)); if i % 20 == 19 { v.push('\n'); } }
+            v.push_str("].\n");
+            v.push_str(&format!("Definition corr_fail := Eval vm_compute in (failing {} cases).\n", cases.agree_fn));
+            v.push_str(&format!("Definition prop_fail := Eval vm_compute in (failing {} cases).\n", cases.holds_fn));
+            v.push_str("Print corr_fail.\nPrint prop_fail.\n");
+            std::fs::write(out.join(format!("cases_{}.v", k)), v).unwrap();
+            k += 1;
+        }
+    });
+    let meta = json!({ "shards": k, "shard_size": cases.shard_size, "n": cases.terms.len() });
+    std::fs::write(out.join("shards.json"), serde_json::to_string(&meta).unwrap()).unwrap();
+    std::fs::write(out.join("cases.json"), serde_json::to_string(&cases.descr).unwrap()).unwrap();
+}
+fn istr(x: &str) -> String { intern("str", coq_str(x)) }
+
 // ------------------------------------------------------------------ what the parser produced
 
 type P = (u64, u64, u64);
@@ -46,7 +131,7 @@ fn p_of(p: &Pos) -> P {
     (p.line as u64, p.column as u64, p.file as u64)
 }
 fn coq_pos(p: &P) -> String {
-    format!("(Pos {} {} {})", coq_n(p.0), coq_n(p.1), coq_n(p.2))
+    intern("pos", format!("Pos {} {} {}", coq_n(p.0), coq_n(p.1), coq_n(p.2)))
 }
 
 #[derive(Clone, Debug, PartialEq, Eq)]
@@ -101,9 +186,12 @@ fn items_of(doc: &OperationDocumentExt) -> Vec<RItem> {
         .collect()
 }
 fn coq_def(d: &RDef) -> String {
-    format!("(Def {} {} {})", coq_bool(d.frag), coq_str(&d.name), coq_n(d.id))
+    intern("def", format!("Def {} {} {}", coq_bool(d.frag), istr(&d.name), coq_n(d.id)))
 }
 fn coq_items(items: &[RItem]) -> String {
+    intern("(list item)", coq_items_raw(items))
+}
+fn coq_items_raw(items: &[RItem]) -> String {
     coq_list(items, |it| match it {
         RItem::Def(d) => format!("IDef {}", coq_def(d)),
         RItem::Import { pos, targets, path, ppos } => format!(
@@ -111,9 +199,9 @@ fn coq_items(items: &[RItem]) -> String {
             coq_pos(pos),
             coq_list(targets, |t| match t {
                 None => "TWild".to_string(),
-                Some((n, p)) => format!("TName {} {}", coq_str(n), coq_pos(p)),
+                Some((n, p)) => format!("TName {} {}", istr(n), coq_pos(p)),
             }),
-            coq_str(path),
+            istr(path),
             coq_pos(ppos)
         ),
     })
@@ -122,13 +210,13 @@ fn coq_ext(ext: &OperationExtension) -> String {
     coq_list(&ext.imports, |i| {
         format!(
             "{{| ipath := {}; ipos := {}; itargets := {} |}}",
-            coq_str(&i.path.value),
+            istr(&i.path.value),
             coq_pos(&p_of(&i.path.position)),
             match &i.targets {
                 ImportTargets::Wildcard => "Wildcard".to_string(),
                 ImportTargets::Specific(ids) => format!(
                     "Specific {}",
-                    coq_list(ids, |id| format!("({}, {})", coq_str(id.name), coq_pos(&p_of(&id.position))))
+                    coq_list(ids, |id| format!("({}, {})", istr(id.name), coq_pos(&p_of(&id.position))))
                 ),
             }
         )
@@ -174,7 +262,7 @@ fn run_ext(text: &str, file_idx: usize, label: &str) -> Option<Ran> {
             let pe: PositionedError = e.into();
             let pos = pe.position().map(|p| p_of(&p)).unwrap_or((0, 0, 0));
             let msg = pe.into_inner().to_string();
-            (format!("(XErr {} {})", coq_str(&msg), coq_pos(&pos)), json!({"err": msg, "pos": [pos.0, pos.1]}))
+            (format!("(XErr {} {})", istr(&msg), coq_pos(&pos)), json!({"err": msg, "pos": [pos.0, pos.1]}))
         }
     };
     Some(Ran {
@@ -231,11 +319,11 @@ fn run_case(c: &GCase) -> Option<Ran> {
     };
     let out_term = match &out {
         Outcome::Ok(ds) => format!("(OOk {})", coq_list(ds, coq_def)),
-        Outcome::Err(m, p) => format!("(OErr {} {})", coq_str(m), coq_pos(p)),
-        Outcome::Panic(m) => format!("(OPanic {})", coq_str(m)),
+        Outcome::Err(m, p) => format!("(OErr {} {})", istr(m), coq_pos(p)),
+        Outcome::Panic(m) => format!("(OPanic {})", istr(m)),
     };
-    let files_term = coq_list(&(0..n).collect::<Vec<_>>(), |i| format!("({}, {})", coq_str(&c.files[*i].path), coq_items(&file_items[*i])));
-    let term = format!("CImp {} {} {} {}", files_term, coq_str(&c.root_path), coq_items(&root_items), out_term);
+    let files_term = coq_list(&(0..n).collect::<Vec<_>>(), |i| format!("({}, {})", istr(&c.files[*i].path), coq_items(&file_items[*i])));
+    let term = format!("CImp {} {} {} {}", files_term, istr(&c.root_path), coq_items(&root_items), out_term);
     let ana = analyse(c, &file_items, &root_items, &out);
     let descr = json!({
         "kind": "imports", "label": c.label,
@@ -732,7 +820,7 @@ fn main() {
         let r = run_ext(&t, 0, "ext");
         push(&mut cases, &c, r, false);
     }
-    cases.write(&args.out);
+    write_interned(&cases, &args.out);
     write_meta(&args.out, &json!({
         "evaluations": cases.len(),
         "distinct_nontrivial": distinct.len(),
